@@ -21,6 +21,13 @@ def norm_tree(t):
     return t
 
 
+def canon_state12(model, st):
+    """canonical state with fluent values at 12 significant digits (sums of several additive effects may differ in the
+    last bits between two processes: they are added in the iteration order of an identity-hashed set)"""
+    atoms, fl = st
+    return (tuple(sorted(atoms)), tuple(sorted((k, "%.12g" % float(v)) for k, v in fl.items())))
+
+
 def canon_text(sx, text):
     try:
         return repr(norm_tree(sx.read(text)))
@@ -97,7 +104,7 @@ def main():
                         res = repr(bool(app))
                     else:
                         nxt = op.apply(s)
-                        res = repr(model.canon_state(lib.read_state(nxt)))
+                        res = repr(canon_state12(model, lib.read_state(nxt)))
             elif kind == "convert-plan":
                 _, pk, lines, agents, flag = c
                 from pddl_plus_parser.multi_agent import PlanConverter
@@ -111,7 +118,7 @@ def main():
                 from pddl_plus_parser.multi_agent import MultiAgentTrajectoryExporter
                 ex = MultiAgentTrajectoryExporter(dom(job["problems"][pk][0]))
                 trip = ex.parse_plan(prob(pk), action_sequence=list(lines))
-                res = repr([(model.canon_state(lib.read_state(t.previous_state)), [str(o) for o in t.joint_action], model.canon_state(lib.read_state(t.next_state)))
+                res = repr([(canon_state12(model, lib.read_state(t.previous_state)), [str(o) for o in t.joint_action], canon_state12(model, lib.read_state(t.next_state)))
                             for t in trip])
             elif kind == "single-trajectory":
                 _, pk, lines, allow = c
@@ -119,7 +126,7 @@ def main():
                 dk = job["problems"][pk][0]
                 exporters.setdefault((dk, allow), TrajectoryExporter(dom(dk), allow_invalid_actions=allow))
                 trip = exporters[(dk, allow)].parse_plan(prob(pk), action_sequence=list(lines))
-                res = repr([(str(t.operator), model.canon_state(lib.read_state(t.next_state))) for t in trip])
+                res = repr([(str(t.operator), canon_state12(model, lib.read_state(t.next_state))) for t in trip])
             elif kind == "combine-dir":
                 _, files = c
                 import os
@@ -151,7 +158,7 @@ def main():
                 _, pk = c
                 p = prob(pk)
                 res = repr((sorted((n, o.type.name) for n, o in p.objects.items()),
-                            model.canon_state(lib.read_state(lib.init_state(p))),
+                            canon_state12(model, lib.read_state(lib.init_state(p))),
                             sorted(x.untyped_representation for x in p.goal_state_predicates),
                             sorted(x.to_pddl() for x in p.goal_state_fluents)))
             else:
